@@ -14,7 +14,7 @@ import (
 func init() {
 	register(&PropSpec{
 		ID:       "C12",
-		Patterns: []string{"./pkg/router", "./pkg/upstream/cluster", "./pkg/configmanager", "./pkg/server", "./istio/istio1106/xds/conv"},
+		Patterns: []string{"./pkg/router", "./pkg/upstream/cluster", "./pkg/configmanager", "./pkg/server", "./istio/istio1106/xds/conv", "./pkg/streamfilter"},
 		Explanation: "(R1) live update => config record: for every mutator of live state (routers, single routes, clusters, hosts, cluster removal, cluster-manager TLS, listeners) every path that performs the live store and returns success also calls the matching configmanager recorder with the very value made live; " +
 			"(R2) build aside, swap once: RoutersWrapper.routers/routersConfig are written together in one critical section and read under the lock, the new route table is built before the lock is taken; the effective-config maps are touched only with configLock held, writes under the write lock; " +
 			"(R3) no last-writer-wins loop: a replace-semantics update (TriggerClusterHostUpdate / UpdateClusterHosts / AddOrUpdateRouters) must not sit in a loop whose iterations share the key while the value is produced inside the loop; " +
@@ -75,6 +75,8 @@ func dependsOnLoop(v ssa.Value, body map[*ssa.BasicBlock]bool, seen map[ssa.Valu
 
 func runC12(c *Ctx) {
 	c.Rule("C12.R12", "no address of a (go 1.18) loop variable escapes its iteration in the update and dump code", 1)
+	c.Rule("C12.R14", "an update of a listener's stream filters is always installed", 1)
+	defer c12FilterUpdateInstalled(c)
 	c.Rule("C12.R13", "a route lookup concurrent with a single-route update walks entirely the old or entirely the new list: the list read under vh.mutex is not used after the lock is released", 3)
 	defer c04NoEscapeRule(c, "pkg/router", "C12.R13")
 	defer loopVarEscapes(c, "C12.R12", []string{"pkg/configmanager", "pkg/router", "pkg/upstream/cluster", "pkg/server"})
@@ -601,4 +603,32 @@ func calledOnlyUnderLock(c *Ctx, fn *ssa.Function, pkg string, needWrite bool) b
 		return true // unreferenced unexported helper: nothing can reach it
 	}
 	return n > 0
+}
+
+// c12FilterUpdateInstalled (R14): an update of a listener's stream filters always takes effect.
+// connHandler.AddOrUpdateListener records the new listener configuration (R1) and hands the stream filter list to
+// StreamFilterManager -> StreamFilterFactoryImpl.UpdateFactory. Clause (must-pass-through): every path of UpdateFactory stores
+// the factories built from the new configuration (`factories.Store`); no early return keeps the previous ones. An update
+// that is skipped "because nothing could be built" also skips the update that removes the last filter: the dump says the
+// listener has no stream filters while every new stream still gets the old ones.
+func c12FilterUpdateInstalled(c *Ctx) {
+	fn := c.M("pkg/streamfilter", "StreamFilterFactoryImpl", "UpdateFactory")
+	if fn == nil {
+		c.Unresolved("C12.R14", "StreamFilterFactoryImpl.UpdateFactory")
+		return
+	}
+	isStore := func(in ssa.Instruction) bool {
+		call, ok := in.(*ssa.Call)
+		if !ok || methodName(call.Common()) != "Store" || len(call.Common().Args) == 0 {
+			return false
+		}
+		_, f, _, okf := fieldAddrInfo(call.Common().Args[0])
+		return okf && f == "factories"
+	}
+	bad := existsPath(fn, nil, isReturn, isStore)
+	pos := fn.Pos()
+	if bad != nil {
+		pos = nearestPos(bad)
+	}
+	c.Check("C12.R14", funcKey(fn)+":filter-update-installed", pos, bad == nil, "every path stores the factories built from the new configuration", "UpdateFactory can return without installing the factories of the new configuration: the recorded listener configuration and the filters that run on new streams differ (an update that removes the last stream filter is ignored)")
 }
